@@ -48,11 +48,22 @@ func mayPanic(fn *ssa.Function, in ssa.Instruction) (bool, string) {
 	recv := func(v ssa.Value) bool {
 		// the method receiver is taken as non-nil
 		for i := 0; i < 4; i++ {
+			// a receiver captured by a nested closure is spilled into a local: *(&local) with local = receiver
+			if u, isU := v.(*ssa.UnOp); isU && u.Op == token.MUL {
+				if _, isAl := u.X.(*ssa.Alloc); isAl {
+					v = core.Strip(v)
+				}
+			}
 			switch x := v.(type) {
 			case *ssa.Parameter:
 				return len(fn.Params) > 0 && x == fn.Params[0] && fn.Signature.Recv() != nil
 			case *ssa.FieldAddr:
 				v = x.X
+				if u, isU := v.(*ssa.UnOp); isU && u.Op == token.MUL {
+					if _, isAl := u.X.(*ssa.Alloc); isAl {
+						v = core.Strip(v)
+					}
+				}
 				if _, isParam := v.(*ssa.Parameter); !isParam {
 					return false
 				}
@@ -874,7 +885,20 @@ func (c *Ctx) c08Panics(recovering map[*ssa.Function]bool) {
 				var origins []string
 				decoderPanic := false
 				msgWhy := ""
-				for _, o := range core.Origins(p.X) {
+				panicOrigins := core.Origins(p.X)
+				// the panic value is a parameter of a local helper (mustRoot := func(root, err) { if err != nil { panic(err) } }):
+				// what it means is decided by what the call sites hand in
+				if par, isPar := core.Strip(p.X).(*ssa.Parameter); isPar && par.Parent() == fn {
+					if pi := paramIndex(fn, par); pi >= 0 {
+						for _, site := range core.StaticSitesOf(fn) {
+							if pi < len(site.Common().Args) {
+								panicOrigins = append(panicOrigins, core.Origins(site.Common().Args[pi])...)
+								panicOrigins = append(panicOrigins, site.Common().Args[pi])
+							}
+						}
+					}
+				}
+				for _, o := range panicOrigins {
 					if cc, _ := core.CallOf(o); cc != nil {
 						if ob := core.CalleeObj(cc); ob != nil {
 							origin = "error of " + ob.Name()
